@@ -15,7 +15,7 @@ import anyio
 from ..explore import E1Check, new_summary, run_main_asyncio
 
 ANNS = ("T", "Optional[T]", "T | None", "'T'", "'Optional[T]'", "'T | None'", "future")
-STATES = ("static", "sync-factory", "async-factory", "inherited", "generated-in-parent", "missing")
+STATES = ("static", "sync-factory", "async-factory", "inherited", "generated-in-parent", "missing", "broken-factory")
 TEMPLATES = {
     # name: (signature with {r1} {r2} placeholders, ordinary parameter names, injected parameter names)
     "r": ("{r1}", [], ["r1"]),
@@ -129,6 +129,10 @@ def all_cases(tier: str) -> list:
     for kind in REJECTS:
         for is_async in (False, True):
             out.append({"reject": kind, "async": is_async})
+    for is_async in (False, True):
+        for opt in (False, True):
+            for state in ("static", "missing"):
+                out.append({"late": True, "async": is_async, "optional": opt, "state": state})
     return out
 
 
@@ -241,8 +245,21 @@ class C19:
         for T, name in later:
             parent.get_resource_nowait(T, name)
         ctx = await stack.enter_async_context(Context())
+        class Missing:
+            pass
+
+        def broken_factory(T: type, key: str):
+            def f() -> Any:
+                calls[key] = calls.get(key, 0) + 1
+                # depends on a resource that is not there: ResourceNotFound escapes from the factory
+                return T(str(ctx.get_resource_nowait(Missing)))
+
+            return f
+
         for tn, T, name, state in specs:
             key = f"{tn}:{name}"
+            if state == "broken-factory":
+                ctx.add_resource_factory(broken_factory(T, "bf:" + key), name, types=T)
             if state == "static":
                 ctx.add_resource(T("st:" + key), name, T)
             elif state == "sync-factory":
@@ -284,7 +301,9 @@ class C19:
         res = env.data["res"] = {"violations": [], "samples": []}
         for case in program["cases"]:
             fails: list = []
-            if "reject" in case:
+            if "late" in case:
+                fails = await self.late_case(env, case)
+            elif "reject" in case:
                 ns: dict = {"_TA": TA, "_TB": TB, "REC": []}
                 try:
                     exec(compile(reject_source(case["reject"], case["async"]), "<c19>", "exec"), ns)
@@ -296,6 +315,62 @@ class C19:
             if fails:
                 res["violations"].append({"keys": sorted({f[0] for f in fails}), "fails": [list(f) for f in fails[:4]], "program": case,
                                           "choices": [], "trace": [], "outcome": "done"})
+
+    async def late_case(self, env: Any, case: dict) -> list:
+        """A string forward reference whose class does not exist yet at the first call: that call fails; once the class is defined
+        the function must behave like the explicit lookup (forward references are resolved lazily, at call time)."""
+        import warnings
+
+        from asphalt.core import Context, ResourceNotFound, get_resource, get_resource_nowait
+
+        fails: list = []
+        ann = "'Optional[Late]'" if case["optional"] else "'Late'"
+        d = "async def" if case["async"] else "def"
+        src = (f"from typing import Optional\nfrom asphalt.core import inject, resource\n@inject\n{d} f(r: {ann} = resource()):\n"
+               f"    REC.append(r)\n    return 'ret'\n")
+        ns: dict = {"REC": []}
+        try:
+            with warnings.catch_warnings():
+                warnings.simplefilter("ignore")
+                exec(compile(src, "<c19-late>", "exec"), ns)
+        except BaseException as e:  # noqa: BLE001
+            return [("decoration", f"decorating a function with a not-yet-defined forward reference raised {e!r}")]
+        f = ns["f"]
+
+        async def call() -> tuple:
+            try:
+                r = f()
+                if case["async"]:
+                    r = await r
+                return ("ok", r)
+            except BaseException as e:  # noqa: BLE001
+                return ("exc", type(e).__name__)
+
+        async with Context() as ctx:
+            first = await call()
+            if first[0] != "exc":
+                fails.append(("late-ref", f"the call made before the annotated class existed returned {first!r}"))
+            ns["REC"].clear()
+
+            class Late:
+                pass
+
+            ns["Late"] = Late
+            if case["state"] == "static":
+                val = Late()
+                ctx.add_resource(val, types=Late)
+            kw = {"optional": True} if case["optional"] else {}
+            try:
+                exp: Any = ("ok", (await get_resource(Late, **kw)) if case["async"] else get_resource_nowait(Late, **kw))
+            except ResourceNotFound:
+                exp = ("exc", "ResourceNotFound")
+            second = await call()
+            if exp[0] == "exc":
+                if second != exp:
+                    fails.append(("late-ref", f"after the class was defined: explicit lookup raises {exp[1]}, the injected call gave {second!r}"))
+            elif second != ("ok", "ret") or not ns["REC"] or ns["REC"][-1] is not exp[1]:
+                fails.append(("late-ref", f"after the class was defined: explicit lookup returns {exp[1]!r}, the injected call gave {second!r} with argument {ns['REC'][-1:]!r}"))
+        return fails
 
     async def one_case(self, env: Any, case: dict, res: dict) -> list:
         import warnings
